@@ -191,9 +191,10 @@ End Dict.
 Arguments dict V : clear implicits.
 
 (* ---- Python slicing with a possibly negative bound: l[:n] and l[n:] ---- *)
+(* bounds are clamped to the length before conversion: Z.to_nat of a huge Content-Length must never be computed *)
 Definition py_slice_to {A} (n : Z) (l : list A) : list A :=
-  if (0 <=? n)%Z then firstn (Z.to_nat n) l
+  if (0 <=? n)%Z then firstn (Z.to_nat (Z.min n (Z.of_nat (length l)))) l
   else firstn (Z.to_nat (Z.of_nat (length l) + n)) l.
 Definition py_slice_from {A} (n : Z) (l : list A) : list A :=
-  if (0 <=? n)%Z then skipn (Z.to_nat n) l
+  if (0 <=? n)%Z then skipn (Z.to_nat (Z.min n (Z.of_nat (length l)))) l
   else skipn (Z.to_nat (Z.of_nat (length l) + n)) l.
